@@ -334,7 +334,7 @@ def gen_physics(rnd, **p):
         nf = rnd.choice([1, 1, 2, 3])
         for _ in range(nf):
             faults.append({"kind": "refuse", "at": {"stage": "S", "step": rnd.randint(0, max(0, steps - 1)), "attempts": list(range(rnd.choice([1, 1, 2, 3]))), "iter": 0}})
-    return {
+    out = {
         "physics": "real",
         "device": dev,
         "options": opts,
@@ -344,3 +344,11 @@ def gen_physics(rnd, **p):
         "faults": faults,
         "meta": {"steps": steps},
     }
+    if rnd.random() < p.get("p_remesh", 0.0):
+        # device life cycle: the same Device object was meshed differently (and used) before
+        out["device_history"] = [{"max_edge_length": rnd.choice([0, 0, 1.5, 1.0]), "smooth": rnd.choice([0, 2])} for _ in range(rnd.choice([1, 1, 2]))]
+        if rnd.random() < 0.6:
+            # coarse first, fine last (stale indices of an earlier mesh stay in range of the final one)
+            out["device_history"][0] = {"max_edge_length": 0, "smooth": 0}
+            out["device"]["mesh"] = {"max_edge_length": rnd.choice([1.0, 1.5]), "smooth": rnd.choice([0, 1])}
+    return out
